@@ -2,7 +2,7 @@
 before anything else that can throw runs (otherwise a rejected image leaks the items already built);
 (2) serde<std::string>::deserialize(bytes): each read through the cursor is preceded, in the same iteration, by the
 `bytes_read + <size of that read> > capacity` test that leaves the loop."""
-from astu import C, ctxt, gt_pair, eq_const, strip, strip_all, walk, walkp, txt, short, stmts_of, functions_by, local_decls, always_throws
+from astu import C, ctxt, gt_pair, eq_const, reach, reach_txt, ctext, strip, strip_all, walk, walkp, txt, short, stmts_of, functions_by, local_decls, always_throws
 from vlib.core import ob
 
 
